@@ -67,8 +67,8 @@ TRUSTED = [
 def make_tasks(run: Run, tier: str, policy: str, variant: dict):
     rng = run.rng("cases")
     quick = tier == "quick"
-    n_grammars = 110 if quick else 1400
-    per = 4 if quick else 8
+    n_grammars = 300 if quick else 1400
+    per = 5 if quick else 8
     max_cells = 6 if quick else 10
     cap_s = 40.0 if quick else 90.0          # wall-clock backstop only; the cap that counts is `step_limit`
     grammars: list[dict] = []
@@ -109,7 +109,7 @@ def make_tasks(run: Run, tier: str, policy: str, variant: dict):
         g["eps"] = eps
         if eps:
             n_eps += 1
-            if g["origin"] in ("stress", "shared") and n_eps > (25 if quick else 200):
+            if g["origin"] in ("stress", "shared") and n_eps > (45 if quick else 200):
                 run.count("gen:epscycle_skipped")
                 continue
         names = [n for n, _ in g["gj"]["rules"]]
@@ -134,13 +134,14 @@ def make_tasks(run: Run, tier: str, policy: str, variant: dict):
 
 BIG_FUEL = 4_000_000
 EXPLOSION_FUEL = 3_000        # model steps spent on a case the real parser did not finish within STEP_LIMIT
-N_LOCKSTEP = 14               # … for at most so many cases per run (quick tier; x4 thorough)
+N_LOCKSTEP = 20               # … for at most so many cases per run (quick tier; x4 thorough)
 # steps = Column.add + IterativeParser.complete calls.  The inputs have at most 10 cells (81 columns); the largest
 # honest parse the generators produce needs ~25 000 steps (exponential-but-finite ambiguity under `{n,}`), the
 # typical one < 500.  A request over the limit is re-judged with the model and a 10x limit before it is reported.
 STEP_LIMIT = 60_000
 STEP_LIMIT_EPS = 5_000       # inside hasEpsCycle the divergence is expected while F9 is open: observe it cheaply
-FUZZ_STEP_LIMIT = 250_000     # a whole evolution run (dozens of internal parses)
+FUZZ_TOTAL_BUDGET = 400_000    # metered steps of a whole fuzz run; reaching it is not a verdict (all requests returned)
+FUZZ_STEP_LIMIT = STEP_LIMIT   # per parse request inside a fuzz run (a run makes hundreds to thousands of them)
 BAD = ("timeout", "killed", "steplimit", "exc:RecursionError")
 
 
@@ -547,7 +548,7 @@ def replay(path: str) -> int:
         return 1
     if rp.get("fuzz"):
         ft = {"id": 0, "spec": rp["spec"], "constraints": rp.get("constraints"), "seed": rp.get("seed", 0),
-              "step_limit": int(rp.get("step_limit", FUZZ_STEP_LIMIT)), "cap_s": 600.0}
+              "step_limit": int(rp.get("step_limit", FUZZ_STEP_LIMIT)), "total_budget": 40 * FUZZ_STEP_LIMIT, "cap_s": 600.0}
         fr = eio.run_pool([ft], workers=1, backstop_s=120.0, fn=c06_fuzz.fuzz_case)[0]
         print("fuzz:", rp["spec"].strip().replace("\n", " ; "), "| constraints", rp.get("constraints"))
         print("real:", fr.get("status"), fr.get("meter"))
@@ -588,8 +589,8 @@ def fuzz_tasks(run: Run, tier: str, grammars: list[dict], comp_eps: dict, policy
         w = words[0]
         lines = [ln for ln in g["spec"].replace("<start>", "<c06g>").splitlines() if ln.strip()]
         eps = bool(g.get("eps", comp_eps.get(g["spec"], False)))
-        limit = 20_000 if eps and policy == "impl" else FUZZ_STEP_LIMIT
-        base = {"cap_s": 30.0 if quick else 60.0, "step_limit": limit, "eps": eps, "word": w, "origin": g["origin"],
+        limit = STEP_LIMIT_EPS if eps and policy == "impl" else FUZZ_STEP_LIMIT
+        base = {"cap_s": 30.0 if quick else 60.0, "step_limit": limit, "total_budget": FUZZ_TOTAL_BUDGET, "eps": eps, "word": w, "origin": g["origin"],
                 "seed": rng.randrange(1 << 30), "parse_spec": "<start> ::= <c06g>\n" + "\n".join(lines) + "\n"}
         gen_lines = [ln + f' := "{w}"' if ln.startswith("<c06g> ::=") else ln for ln in lines]
         out.append({**base, "id": len(out), "kind": "generator",
@@ -609,13 +610,16 @@ def judge_fuzz(run: Run, ftasks: list[dict], fres: list[dict], policy: str, unde
         run.count("fuzz_status:" + (st if not st.startswith("exc:") or st == "exc:RecursionError" else "exc:other"))
         run.case(["fuzz", t["spec"], t["constraints"]], st == "ok" and (r.get("meter") or {}).get("adds", 0) > 0,
                  {"fuzz": t["kind"], "spec": t["spec"], "constraints": t["constraints"], "status": st, "meter": r.get("meter")})
+        if st == "budget":
+            run.count("fuzz:total_budget_reached_every_request_returned")
         if st not in BAD:
             continue
         if st == "exc:RecursionError" and (r.get("meter") or {}).get("adds", 0) < 1000:
             run.count("fuzz:recursion_outside_parser")       # the expander's own recursion (C01), parser barely ran
             continue
-        what = (f"fuzz run ({t['kind']}: the value {t['word']!r} is parsed under <c06g> internally) does not finish: {st} "
-                f"(limit {t['step_limit']} steps, meter {r.get('meter')}): {t['spec'].strip()!r} constraints {t['constraints']}")
+        what = (f"fuzz run ({t['kind']}: the value {t['word']!r} is parsed under <c06g> internally): a parse request inside it "
+                f"does not come back: {st} (limit {t['step_limit']} metered steps per request, meter {r.get('meter')}, "
+                f"request {r.get('last_request')}): {t['spec'].strip()!r} constraints {t['constraints']}")
         rp = {"fuzz": True, "kind": t["kind"], "spec": t["spec"], "constraints": t["constraints"], "seed": t["seed"],
               "step_limit": t["step_limit"], "word": t["word"]}
         if st in ("timeout", "killed"):
@@ -633,9 +637,14 @@ def judge_fuzz(run: Run, ftasks: list[dict], fres: list[dict], policy: str, unde
     # <c06g> with the same grammar — which is judged like every other parse request (model-derived bound, lock step;
     # finite explosions of the chart are not divergence).  Only if that request comes back is the fuzz run itself
     # asked again with a 10x limit.
-    ptasks = [{"id": f"F{i}", "spec": t["parse_spec"], "start": "<c06g>", "word": eio.word_json(t["word"]),
-               "cap_s": 90.0, "step_limit": STEP_LIMIT, "max_trees": 300, "modes": True, "eps_pre": t["eps"],
-               "tags": ["fuzz_internal_parse"]} for i, (t, _r, _w, _rp) in enumerate(over)]
+    # (the request that was running when the meter stopped the run, as recorded by the worker; else the wanted value)
+    ptasks = []
+    for i, (t, r, _w, _rp) in enumerate(over):
+        lr = r.get("last_request") or {}
+        ptasks.append({"id": f"F{i}", "spec": t["parse_spec"], "start": lr.get("start", "<c06g>"),
+                       "word": lr.get("word") or eio.word_json(t["word"]),
+                       "cap_s": 90.0, "step_limit": STEP_LIMIT, "max_trees": 300, "modes": True, "eps_pre": t["eps"],
+                       "tags": ["fuzz_internal_parse", "fuzz_request_mode:" + str(lr.get("mode", "?"))]})
     preals = eio.run_pool(ptasks, workers=14, backstop_s=120.0)
     pcore, ppol = model_runs(preals, ptasks, policy, ctx["variant"], ctx["tier"])
     judge(run, ptasks, preals, pcore, ppol, policy, ctx["corr_failures"], ctx["info"], undecided, ctx["unbounded_outside"])
@@ -646,12 +655,13 @@ def judge_fuzz(run: Run, ftasks: list[dict], fres: list[dict], policy: str, unde
         if diverged(pr) is not None:
             run.count("fuzz:over_limit_attributed_to_its_parse_request")      # judged above, as a parse request
             continue
-        rr = eio.run_pool([{**t, "step_limit": 10 * t["step_limit"], "cap_s": 600.0}], workers=1, backstop_s=120.0,
-                          fn=c06_fuzz.fuzz_case)[0]
+        rr = eio.run_pool([{**t, "step_limit": 10 * t["step_limit"], "total_budget": 40 * t["step_limit"], "cap_s": 600.0}],
+                          workers=1, backstop_s=120.0, fn=c06_fuzz.fuzz_case)[0]
         if rr.get("status") == "steplimit" or (rr.get("status") == "exc:RecursionError"
                                                and (rr.get("meter") or {}).get("adds", 0) >= 1000):
-            run.report("C06/divergence-in-fuzz", what + " — the parse request it makes internally comes back "
-                       f"({pr.get('status')}, {pr.get('meter')}), the fuzz run is still over a 10x step limit", rp)
+            run.report("C06/divergence-in-fuzz", what + " — the same parse request, made alone, comes back "
+                       f"({pr.get('status')}, {pr.get('meter')}); inside the fuzz run a request is still over a 10x "
+                       f"per-request step limit ({rr.get('last_request')})", rp)
         else:
             run.count("fuzz:finished_with_10x_limit")
 
